@@ -1151,7 +1151,28 @@ def cinfix(c):
     return "?"
 
 
-def gen_lean(out, kinds):
+def population_constants(repo=None):
+    """default of `R` in misc.population (signature) and what its docstring says about it"""
+    tree = load_modules(repo)["misc"]
+    fn = [n for n in tree.body if isinstance(n, ast.FunctionDef) and n.name == "population"]
+    if len(fn) != 1:
+        raise BrokenTie("misc.population not found")
+    fn = fn[0]
+    params = [a.arg for a in fn.args.args]
+    if "R" not in params or not fn.args.defaults:
+        raise BrokenTie("misc.population has no default for R")
+    d = dict(zip(params[len(params) - len(fn.args.defaults):], fn.args.defaults)).get("R")
+    if not (isinstance(d, ast.Constant) and isinstance(d.value, float)):
+        raise BrokenTie("the default of R is not a float literal")
+    code = Fraction(repr(d.value))
+    doc = ast.get_docstring(fn) or ""
+    m = re.search(r"R\s*:.*default\s*=\s*([0-9.eE+-]+)\s*m3/s\s*=\s*([0-9.]+)\s*gallons/day", doc)
+    if not m:
+        raise BrokenTie("the docstring of population no longer states the default of R as `<x> m3/s = <y> gallons/day`")
+    return code, Fraction(m.group(1)), Fraction(m.group(2))
+
+
+def gen_lean(out, kinds, consts=None):
     lines = [
         "-- GENERATED by harness/props/c20_translate.py from the python source of wntr/metrics/{hydraulic,economic,misc}.py and",
         "-- Tank.get_volume (wntr/network/elements.py): the arithmetic of each metric, one time / one element. Do not edit.",
@@ -1167,6 +1188,14 @@ def gen_lean(out, kinds):
         lines.append("def %s : MExpr :=" % lean)
         lines.append("  " + to_lean(e))
         lines.append("")
+    if consts is not None:
+        code, doc, gpd = consts
+        lines.append("/-- default of `R` in the signature of `population` (misc.py) -/")
+        lines.append("def population_R_default : Rat := %s" % lean_rat(code))
+        lines.append("/-- its docstring: default = `population_R_doc` m3/s = `population_R_doc_gpd` gallons/day -/")
+        lines.append("def population_R_doc : Rat := %s" % lean_rat(doc))
+        lines.append("def population_R_doc_gpd : Rat := %s" % lean_rat(gpd))
+        lines.append("")
     lines.append("end Wntr.Metrics.Gen")
     return "\n".join(lines) + "\n"
 
@@ -1175,4 +1204,4 @@ if __name__ == "__main__":
     if len(sys.argv) > 1:
         vlib.REPO = sys.argv[1]
     o, k, nt = translate_all()
-    print(gen_lean(o, k))
+    print(gen_lean(o, k, population_constants()), end="")
